@@ -2,6 +2,7 @@ package expr
 
 import (
 	"fmt"
+	"reflect"
 	"time"
 
 	"github.com/getlantern/goexpr"
@@ -83,7 +84,13 @@ var _ msgpack.CustomEncoder = (*bounded)(nil)
 var _ msgpack.CustomDecoder = (*bounded)(nil)
 
 func (e *bounded) EncodeMsgpack(enc *msgpack.Encoder) error {
-	return enc.Encode(e.wrapped, e.min, e.max)
+	// Encode wrapped the way an interface-typed struct field is encoded, so that it
+	// always carries its ext header. enc.Encode(e.wrapped) would call a directly
+	// nested bounded's EncodeMsgpack and omit the header that DecodeMsgpack relies on.
+	if err := enc.EncodeValue(reflect.ValueOf(&e.wrapped).Elem()); err != nil {
+		return err
+	}
+	return enc.Encode(e.min, e.max)
 }
 
 func (e *bounded) DecodeMsgpack(dec *msgpack.Decoder) error {
